@@ -2,6 +2,7 @@ package config
 
 import (
 	"github.com/safing/portbase/log"
+	"github.com/safing/portbase/utils/vhook"
 )
 
 type (
@@ -60,6 +61,7 @@ func GetAsString(name string, fallback string) StringOption {
 	return func() string {
 		if !valid.IsSet() {
 			valid = getValidityFlag()
+			vhook.AtS("config.get.refetch", name)
 			option, valueCache = getValueCache(name, option, OptTypeString)
 			if valueCache != nil {
 				value = valueCache.stringVal
@@ -83,6 +85,7 @@ func GetAsStringArray(name string, fallback []string) StringArrayOption {
 	return func() []string {
 		if !valid.IsSet() {
 			valid = getValidityFlag()
+			vhook.AtS("config.get.refetch", name)
 			option, valueCache = getValueCache(name, option, OptTypeStringArray)
 			if valueCache != nil {
 				value = valueCache.stringArrayVal
@@ -106,6 +109,7 @@ func GetAsInt(name string, fallback int64) IntOption {
 	return func() int64 {
 		if !valid.IsSet() {
 			valid = getValidityFlag()
+			vhook.AtS("config.get.refetch", name)
 			option, valueCache = getValueCache(name, option, OptTypeInt)
 			if valueCache != nil {
 				value = valueCache.intVal
@@ -129,6 +133,7 @@ func GetAsBool(name string, fallback bool) BoolOption {
 	return func() bool {
 		if !valid.IsSet() {
 			valid = getValidityFlag()
+			vhook.AtS("config.get.refetch", name)
 			option, valueCache = getValueCache(name, option, OptTypeBool)
 			if valueCache != nil {
 				value = valueCache.boolVal
